@@ -84,30 +84,43 @@ def urlParse (raw : Bytes) : Option (Bytes × Bytes × Bytes) :=
         | some h => some (scheme, h, path)
       else some (scheme, [], rest)
 
+/-- how standardizeAddress separates host and port of the URL's host: SplitHostPort, then SplitHostPort with ":" appended
+(no port written), else the whole thing -/
+def splitURLHost (uhost : Bytes) : Bytes × Bytes :=
+  match splitHostPort uhost with
+  | some hp => hp
+  | none => match splitHostPort (uhost ++ b!":") with
+    | some hp => hp
+    | none => (uhost, [])
+
+/-- the second half of standardizeAddress, after net/url.Parse: host/port split, port from the scheme, the convention
+check, scheme from the port -/
+def finishStandardize (input scheme uhost path : Bytes) : Except AddrErr Address :=
+  let (host, port) := splitURLHost uhost
+  let port := if port.isEmpty then
+      (if scheme == b!"http" then httpPort else if scheme == b!"https" then httpsPort else port)
+    else port
+  if (scheme == b!"http" && port == httpsPort) || (scheme == b!"https" && port == httpPort) then .error .convention
+  else
+    let scheme := if scheme.isEmpty then
+        (if port == httpPort then b!"http" else if port == httpsPort then b!"https" else scheme)
+      else scheme
+    .ok { original := input, scheme := scheme, host := host, port := port, path := path }
+
+/-- the address text as net/url.Parse sees it: service names replaced by port numbers, "//" prepended unless the text
+contains "//" or starts with "/" -/
+def urlText (input : Bytes) : Bytes :=
+  let str := replaceFirst input b!":https" (b!":" ++ httpsPort)
+  let str := replaceFirst str b!":http" (b!":" ++ httpPort)
+  if !containsSub str b!"//" && !hasPrefix str b!"/" then b!"//" ++ str else str
+
 /-- standardizeAddress -/
 def standardizeAddress (input : Bytes) : Except AddrErr Address :=
   if !inAddrDomain input then .error .outOfModel
   else
-    let str := replaceFirst input b!":https" (b!":" ++ httpsPort)
-    let str := replaceFirst str b!":http" (b!":" ++ httpPort)
-    let str := if !containsSub str b!"//" && !hasPrefix str b!"/" then b!"//" ++ str else str
-    match urlParse str with
+    match urlParse (urlText input) with
     | none => .error .url
-    | some (scheme, uhost, path) =>
-      let (host, port) := match splitHostPort uhost with
-        | some hp => hp
-        | none => match splitHostPort (uhost ++ b!":") with
-          | some hp => hp
-          | none => (uhost, [])
-      let port := if port.isEmpty then
-          (if scheme == b!"http" then httpPort else if scheme == b!"https" then httpsPort else port)
-        else port
-      if (scheme == b!"http" && port == httpsPort) || (scheme == b!"https" && port == httpPort) then .error .convention
-      else
-        let scheme := if scheme.isEmpty then
-            (if port == httpPort then b!"http" else if port == httpsPort then b!"https" else scheme)
-          else scheme
-        .ok { original := input, scheme := scheme, host := host, port := port, path := path }
+    | some (scheme, uhost, path) => finishStandardize input scheme uhost path
 
 /-- what Address.Normalize does to an IP-literal host before lower-casing: net.ParseIP(host).String() -/
 def canonHost (h : Bytes) : Bytes :=
